@@ -169,6 +169,24 @@ def gen_cases(rng, ctx):
 
         cases.append(Case(li, None, spec_b, kind="process:rules-file", nontrivial=bool(rules),
                           meta={"rules": rules, "peer": [127, 0, 0, 1], "front": True, "quic": False, "text": text}))
+    # a field that is present but not a TOML string (a forgotten pair of quotes, an array) is a malformed field: the rule matches nothing
+    WRONG = ['cidr = ["127.0.0.0/8"]', "cidr = 127", "client_random_prefix = 0xdeadbeef", "client_random_prefix = 12", "client_random_prefix = true",
+             'cidr = 127.0\nclient_random_prefix = ["00/00"]']
+    for i, w in enumerate(WRONG if thorough else WRONG[:4]):
+        for act in (0, 1):
+            ck, pk = (1 if "cidr" in w else 0), (1 if "client_random_prefix" in w else 0)
+            rules = [[[act, ck, pk], [33] if ck else [], [33] if pk else [], []], [[1 - act, 0, 0], [], [], []]]
+            text = "[[rule]]\n%s\naction = \"%s\"\n[[rule]]\naction = \"%s\"\n" % (w, "deny" if act else "allow", "allow" if act else "deny")
+            li = line("bin_run", [[3, 0, 0], list(text.encode())])
+            rule_toks = [[len(rules), 0]] + sum(rules, [])
+
+            def spec_w(impl, rule_toks=rule_toks):
+                t = impl.split()
+                rnd = untok(t[1]) if len(t) >= 2 and t[0] != "996" else []
+                return line("c04_front", rule_toks + [[1], [127, 0, 0, 1], rnd])
+
+            cases.append(Case(li, None, spec_w, kind="process:rules-file-wrong-type", nontrivial=True,
+                              meta={"rules": rules, "peer": [127, 0, 0, 1], "front": True, "quic": False, "text": text}))
     n = 4000 if thorough else 700
     for i in range(n):
         rules = [gen_rule(rng) for _ in range(rng.choice([0, 1, 1, 2, 3, 4, 6]))]
